@@ -14,7 +14,13 @@ WORKERS={'diffWorker','intersectWorker','intersectWithLimitWorker','unionWorker'
 NOVER={'linsertBeforeUnlocked','linsertAfterUnlocked'}
 EXTRA={
  'linsert': ['//@ loop "for pivotItem = list.head" invariant [C03] pivot: pivotItem != nil ==> (pivotItem.owner == list && 0 <= pivotItem.idx && pivotItem.idx < list.count && list.seq[pivotItem.idx] == pivotItem)',
-             '//@ requires free bounded: true'],
+             '//@ requires free bounded: true',
+             # LINSERT: the pivot is the first element equal to the argument; -1 without a pivot, 0 without a list, the new length otherwise
+             '//@ ghostafter "list, err := dsc.getListUnlocked(keyName)" : gN0 = list.count',
+             '//@ loop "for pivotItem = list.head" invariant [C03] first.match: all(i, 0, ite(pivotItem != nil, pivotItem.idx, list.count), string(list.seq[i].element) != pivot)',
+             '//@ assertbefore "if before {" [C03] pivot.matches: string(pivotItem.element) == pivot',
+             '//@ assertbefore "output.data = respInt(list.count)" [C03] grown: list.count == gN0 + 1',
+             '//@ assertbefore "output.data = respInt(-1)" [C03] no.pivot: all(i, 0, list.count, string(list.seq[i].element) != pivot) && !mutated && !bumped'],
  'lpush': ['//@ ensures [C11] wakes: mutated ==> gWakeRequested == len(values) && gWakeKey == keyName', '//@ loopinv [C03] bounded: list != nil ==> list.count < (1<<40) + ri1', '//@ requires free sizes: len(values) < (1<<40)'],
  'rpush': ['//@ ensures [C11] wakes: mutated ==> gWakeRequested == len(values) && gWakeKey == keyName', '//@ loopinv [C03] bounded: list != nil ==> list.count < (1<<40) + ri1', '//@ requires free sizes: len(values) < (1<<40)'],
  'lpushx': ['//@ ensures [C11] wakes: mutated ==> gWakeRequested == len(values) && gWakeKey == keyName', '//@ loopinv [C03] bounded: list != nil ==> list.count < (1<<40) + ri1', '//@ requires free sizes: len(values) < (1<<40)'],
@@ -213,6 +219,22 @@ EXTRA={
    '//@ ensures internal [C04] one.each: !wrongType ==> len(vals) == len(fieldNames)',
    '//@ ensures internal [C04] present: !wrongType && objExists ==> allsel(i, 0, len(fieldNames), (vals[i] != nil) == m.vdom[fieldNames[i]])',
    '//@ ensures internal [C04] missing.nil: !objExists ==> allsel(i, 0, len(vals), vals[i] == nil)'],
+ 'lremove': [
+   '//@ mode int', '//@ use *',
+   # LREM: never more than |count| removals (count 0: no limit), only elements equal to the argument, the list shrinks by the reply
+   '//@ ghostafter "list, err := dsc.getListUnlocked(keyName)" : gN0 = list.count',
+   '//@ loopinv [C03] listwf.loop: list != nil ==> listWF(list)',
+   '//@ loopinv [C03] removed.count: 0 <= removed && removed <= count && list.count + removed == gN0',
+   '//@ loop 1 invariant [C03] walk.fwd: item == nil || (item.owner == list && 0 <= item.idx && item.idx < list.count && list.seq[item.idx] == item)',
+   '//@ loop 2 invariant [C03] walk.bwd: item == nil || (item.owner == list && 0 <= item.idx && item.idx < list.count && list.seq[item.idx] == item)',
+   '//@ assertbefore "dsc.removeUnlocked(keyName, list, item)" [C03] only.matches: string(item.element) == element',
+   '//@ ensures internal [C03] shrunk: err == nil && list != nil && gN0 > 0 ==> list.count + removed == gN0 && removed >= 0',
+   '//@ ensures internal [C03] limit: err == nil && list != nil && gN0 > 0 && old(count) != 0 && old(count) > -9223372036854775808 ==> removed <= ite(old(count) < 0, -old(count), old(count))'],
+ 'getKeys': [
+   # MGET / LCS: one answer per key, in order; nil for a missing key and for a key of another type
+   '//@ loop 1 invariant [C02] one.each: len(vals) == ri1',
+   '//@ assertbefore "vals = append(vals, val)" [C02] answer: (val != nil) == (objExists && flagHasOne(sk.flags, FLAG_KEY_TYPE_STRING))',
+   '//@ ensures internal [C02] one.each: len(vals) == len(keyName)'],
  'lmpop': ['//@ loop "for _, keyName := range keyNames" invariant [C06] nomut: !mutated', '//@ loop 2 invariant [C06] noempty.left: list.count == 0 ==> !dsc.ds.data.vdom[keyName]', '//@ loop 3 invariant [C06] noempty.right: list.count == 0 ==> !dsc.ds.data.vdom[keyName]', '//@ assertbefore "result = []any{keyName, elements}" [C06] noempty: list.count == 0 ==> !dsc.ds.data.vdom[keyName]'],
  'addInt': ['//@ ghostafter "value, err = strconv.ParseInt" : gParsed = value',
             '//@ ghostafter "canonical := strconv.FormatInt(value, 10)" : gParsedOK = (err == nil && canonical)',
@@ -372,7 +394,7 @@ EXTRA={
             '//@ ensures [C02] msetnx.refused: flagHasOne(options, SET_NOT_EXIST) && gSawExisting ==> result.data == respInt(0)',
             '//@ ensures [C02] msetnx.accepted: flagHasOne(options, SET_NOT_EXIST) && !gSawExisting ==> result.data == respInt(1)',
             '//@ ensures internal [C02] all.stored: result.data != respInt(0) ==> allsel(i, 0, len(keys), dsc.ds.data.vdom[keys[i]])'],
- 'setKey': ['// APPEND: the stored value grows by exactly the argument, placed after the old bytes', '//@ ghostentry gOldLen = 0', '//@ ghostafter "strBytes := oldSk.getStringBytes()" : gOldLen = len(strBytes)', '//@ assertbefore "newSk := dsc.ds.newStoreKeyUnlocked(keyName)" [C02] appended.len: flagHasOne(options, SET_APPEND) ==> len(argBytes) == gOldLen + len(str)', '//@ assertbefore "newSk := dsc.ds.newStoreKeyUnlocked(keyName)" [C02] replaced: !flagHasOne(options, SET_APPEND) ==> len(argBytes) == len(str) && allsel(k, 0, len(str), argBytes[k] == str[k])', '//@ ensures internal [C02] nx.kept: exists && flagHasOne(options, SET_NOT_EXIST) ==> !mutated',
+ 'setKey': ['// without GET the reply tells whether the value was set: OK exactly when a new value was stored, nil when NX/XX held it back', '//@ ensures [C02] performed.reply: valid != VALUE_WRONG_TYPE && !flagHasOne(options, bitflags(SET_GET)) ==> ((val.data == rstrOK) == mutated) && (!mutated ==> val.data == nil)', '// APPEND: the stored value grows by exactly the argument, placed after the old bytes', '//@ ghostentry gOldLen = 0', '//@ ghostafter "strBytes := oldSk.getStringBytes()" : gOldLen = len(strBytes)', '//@ assertbefore "newSk := dsc.ds.newStoreKeyUnlocked(keyName)" [C02] appended.len: flagHasOne(options, SET_APPEND) ==> len(argBytes) == gOldLen + len(str)', '//@ assertbefore "newSk := dsc.ds.newStoreKeyUnlocked(keyName)" [C02] replaced: !flagHasOne(options, SET_APPEND) ==> len(argBytes) == len(str) && allsel(k, 0, len(str), argBytes[k] == str[k])', '//@ ensures internal [C02] nx.kept: exists && flagHasOne(options, SET_NOT_EXIST) ==> !mutated',
             '//@ ensures internal [C02] xx.missing: !exists && flagHasOne(options, SET_EXISTS) ==> !mutated && val.data == nil',
             '//@ ensures internal [C02] get.old: exists && flagHasOne(options, bitflags(SET_GET)) && valid != VALUE_WRONG_TYPE ==> istype(val.data, respBulkString)',
             '//@ ensures internal [C02] stored: mutated ==> dsc.ds.data.vdom[keyName] && istype(dsc.ds.data.vval[keyName], *storeKey) && unbox(dsc.ds.data.vval[keyName], *storeKey) == newSk && flagHasOne(newSk.flags, FLAG_KEY_TYPE_STRING) && newSk.expiresAt == ite(exists && (flagHasOne(options, SET_KEEP_TTL) || flagHasOne(options, SET_APPEND)), old(oldSk.expiresAt), expiration)',
